@@ -87,6 +87,8 @@ struct Case {
     protocol: Option<u8>,
     /// arrival order of the datagrams of a split answer (Transport::delivery)
     delivery: u8,
+    /// bzip2 block size of the server in 100 kB units (9 = library default)
+    bz_level: u8,
 }
 
 /// Framing recipe (cut offsets depend on the payload, so they are symbolic here).
@@ -180,6 +182,7 @@ fn base(engine: EngineCfg, bound: usize) -> Case {
         kind: Kind::Protocol,
         protocol: None,
         delivery: 0,
+        bz_level: 9,
     }
 }
 
@@ -313,6 +316,16 @@ fn build_cases(tier: Tier) -> Vec<Case> {
         ];
         c.label = format!("C {e:?} 255 players in 6, 300 rules in 12 fragments");
         v.push(c);
+        // a compressed reply longer than one bzip2 block (block size 100 kB: 20000 rules are about 170 kB): a multi-block stream
+        if !e.gold() && (tier.is_thorough() || e == EngineCfg::App440) {
+            let mut c = base(e, 0);
+            c.rule_counts = vec![20_000];
+            c.player_counts = vec![2];
+            c.framing = [Fr::Single, Fr::Single, Fr::SourceCompressed(64)];
+            c.bz_level = 1;
+            c.label = format!("C {e:?} 20000 rules, bzip2 with 100 kB blocks (multi-block stream) in 64 fragments");
+            v.push(c);
+        }
         if tier.is_thorough() && !e.gold() {
             let mut c = base(e, 0);
             c.rule_counts = vec![65_535];
@@ -470,6 +483,7 @@ impl Prop for C02 {
                         fr.clone()
                     }
                 };
+                crate::rsm::valve::set_bz_level(case.bz_level);
                 let transport = Transport {
                     info: auto(&case.framing[0], lens[0]).resolve(lens[0], true, 0x0000_1234),
                     players: auto(&case.framing[1], lens[1]).resolve(lens[1], !no_size, 0x0000_0777),
